@@ -163,6 +163,14 @@ fn run<const BITS: usize, const LIMBS: usize>(f: &str, a: &[&str]) -> String {
             let v = U::<BITS, LIMBS>::arbitrary(&mut g);
             format!("{} {}", out_limbs(&src), out_uint(&v))
         }
+        // the one libm call of approx_pow2, through the same public expression as src/pow.rs:
+        // `(fract.exp2() * EXP2_63) as u64`
+        "approx_pow2_obs" => {
+            let exp = f64::from_bits(z64(a[0]));
+            let bits = (exp.fract().exp2() * 9_223_372_036_854_775_808_f64) as u64;
+            out_z(bits.into())
+        }
+        "approx_pow2" => out_opt(Uint::<BITS, LIMBS>::approx_pow2(f64::from_bits(z64(a[0])))),
         "thread_random" => {
             let (which, count) = (z64(a[0]), z64(a[1]));
             let mut acc = 0u64;
